@@ -219,7 +219,7 @@ func c09Run(c *Case) (out string, fails []Fail) {
 	defs.InputLogMaxMessageBytes = maxMsg
 	defs.InputLogMaxRecordBytes = maxRec
 	defs.InputLogMinRecordBytesToPool = minPool
-	if c.Kind == 3 {
+	if c.Kind == 3 || c.Kind == 4 {
 		return c09RunX(env, c)
 	}
 	if c.Kind == 2 {
